@@ -150,11 +150,21 @@ def run(ck: Checker):
     # ------------------------------------------------------------------ C04-12
     from . import server as _server
 
-    ck.rule('C04-12', 'every other request is still answered: the gather loop, which serves all requests, cannot be ended by one request — not by a future its caller cancelled concurrently, not by an unknown id (the C07-1 / C07-2 obligations)', minimum=4)
+    ck.rule('C04-12', 'every other request is still answered: the gather loop, which serves all requests, cannot be ended by one request — not by a future its caller cancelled concurrently, not by an unknown id — and every message it consumes, failed requests included, returns its slot and wakes a waiter (the C07-1 / C07-2 / C06-4 obligations)', minimum=8)
     for name_ in _server.SERVERS:
         s_ = _server.discover(ck.repo, name_)
         _server.check_race_free_resolution(ck, 'C04-12', s_)
         _server.check_unknown_id_tolerated(ck, 'C04-12', s_)
+        # ... and every answered request, failed ones included, gives its slot back and wakes a waiter: a run of failing
+        # requests must not leave the callers behind them waiting for admission (the C06-4 obligations)
+        _server.check_slot_return(ck, 'C04-12', s_)
+    # ------------------------------------------------------------------ C04-13
+    # "an exception of the original type that still carries the traceback of the failure site (as text once it has crossed a
+    # process boundary)": the carrier is RemoteException; its obligations (C15) are decided here as well
+    from . import c15 as _c15
+
+    with ck.as_rule('C04-13', 'the failure keeps type, arguments and the traceback text of its site across process boundaries: the RemoteException obligations C15-1..6 (text formatted from the traceback at hand, with the chain, without a frame limit; forwarded text reused; rebuild attaches it; members re-wrapped)', minimum=5):
+        _c15.run(ck)
     # ------------------------------------------------------------------ C04-8
     from . import c02
 
@@ -421,6 +431,26 @@ def check_containment(ck: Checker, rid: str):
             ck.ob(rid, f, cn.ast, not probs, '; '.join(sorted(set(probs))) if probs else f'an Exception raised by `{callee}` becomes the value of that request and the loop goes on')
 
 
+def check_wrap_arguments(ck: Checker, rid: str, f: FuncInfo):
+    """What is wrapped is an exception, not a wrapper: RemoteException(v) reads v's traceback; a v that already IS a
+    RemoteException (an upstream failure that arrived over a thread queue, un-pickled) has none -- the constructor raises,
+    inside the service loop, and the thread that serves every request dies."""
+    cfg, sc, g = guard_cfg(ck, f, calls=('preprocess',))
+    n_ob = 0
+    for n in cfg.nodes:
+        a = header_expr(n)
+        if a is None:
+            continue
+        for c in calls_in(a):
+            if (dotted(c.func) or '').endswith('RemoteException') and c.args and isinstance(c.args[0], ast.Name):
+                v = c.args[0].id
+                S = g.at(n.id)
+                ok = bool(S) and all(any(f_[0] == 'neg' and f_[1] == v and f_[2] == 'RemoteException' for f_ in d) or any(f_[0] == 'pos' and f_[1] == v and f_[2] in ('Exception', 'BaseException') for f_ in d) or ('exc', v) in d for d in S)
+                n_ob += 1
+                ck.ob(rid, f, c, ok, f'`{norm_text(c)[:40]}`: `{v}` is proven an exception (not a wrapper) here' if ok else f'`{norm_text(c)[:40]}` can be reached with `{v}` already a RemoteException (an upstream failure that came over a thread queue is still the wrapper): wrapping it again raises inside the service loop — the thread dies, that request and every later one are never answered, and the server cannot shut down')
+    return n_ob
+
+
 def check_all_wrapping(ck: Checker, rid: str):
     """every place of the worker / servlet code that puts a request's value on an output queue"""
     mod = ck.repo.module(WORKER)
@@ -432,3 +462,5 @@ def check_all_wrapping(ck: Checker, rid: str):
     check_wrapping(ck, rid, smod.func('EnsembleServlet._enqueue'), out_q={'self._qout'})
     check_wrapping(ck, rid, smod.func('EnsembleServlet._dequeue'), out_q={'self._qout'})
     check_wrapping(ck, rid, smod.func('SwitchServlet._enqueue'), out_q={'self._qout'})
+    for f_ in (mod.func('Worker._start_single'), mod.func('Worker._start_single.get_input'), mod.func('Worker._start_batch'), mod.func('Worker._build_input_batches'), smod.func('EnsembleServlet._enqueue'), smod.func('EnsembleServlet._dequeue'), smod.func('SwitchServlet._enqueue')):
+        check_wrap_arguments(ck, rid, f_)
